@@ -28,6 +28,9 @@
 //!       `add_member`/`add_rtt`; the real `handle_sync` (hook) is run; the dummy listeners record which
 //!       members get a `SyncStart`.  `handle_sync` picks at most 3 per call, so it is called again after
 //!       `update_sync_ts` of the contacted ones (what a successful sync does) until nobody new is picked.
+//!       The member list is a list of ANNOUNCEMENTS `id:cluster:ring[:ts[:addr]]` applied in order through the
+//!       real `add_member`: the same actor may be announced again with a newer (or older) timestamp, another
+//!       cluster id and the same or another address; expectations follow the newest identity of each actor.
 //!   targets <mine> <local|relay> <members>
 //!       same table; `ring0=` is the real `Members::ring0(agent.cluster_id())`; then one
 //!       `BroadcastInput::AddBroadcast|Rebroadcast` is given to the agent's real broadcast loop and the
@@ -735,11 +738,11 @@ async fn start_lab(dir: PathBuf) -> Result<Lab, String> {
     // foca's max_transmissions is 5 (what a membership notification does), then check by observation.
     for attempt in 0..3 {
         let _ = lab.node.agent.tx_foca().send(FocaInput::ClusterSize(30u32.try_into().unwrap())).await;
-        let toks: Vec<Tok> = (0..7).map(|i| Tok { id: Id::N(i), cluster: 0, ring: None }).collect();
+        let toks: Vec<Tok> = (0..7).map(|i| Tok { id: Id::N(i), cluster: 0, ring: None, ts: 1, addr: i }).collect();
         match targets_run(&lab, 0, false, &toks, Duration::from_secs(8)).await {
-            Ok((_, sent)) if sent.len() == 8 => return Ok(lab), // 7 members + the sentinel
+            Ok((_, sent, _)) if sent.len() == 8 => return Ok(lab), // 7 members + the sentinel
             Ok(_) | Err(_) if attempt < 2 => continue,
-            Ok((_, sent)) => return Err(format!("calibration: a relayed broadcast reached only {} of 8 same-cluster members", sent.len())),
+            Ok((_, sent, _)) => return Err(format!("calibration: a relayed broadcast reached only {} of 8 same-cluster members", sent.len())),
             Err(e) => return Err(format!("calibration: {e}")),
         }
     }
@@ -752,32 +755,78 @@ enum Id {
     Me,
 }
 
+/// one announcement `id:cluster:ring[:ts[:addr]]` (ts 1..9, default 1; addr = listener 0..11, default the id)
 #[derive(Clone, Debug)]
 struct Tok {
     id: Id,
     cluster: u16,
     ring: Option<u8>,
+    ts: u8,
+    /// listener whose address the announcement carries
+    addr: usize,
+}
+
+fn digits(s: &str) -> bool {
+    !s.is_empty() && s.chars().all(|c| c.is_ascii_digit())
 }
 
 fn parse_members(s: &str) -> Option<Vec<Tok>> {
     let mut out: Vec<Tok> = vec![];
     for t in split_list(s) {
         let p: Vec<&str> = t.split(':').collect();
-        if p.len() != 3 {
+        if p.len() < 3 || p.len() > 5 {
             return None;
         }
-        let id = if p[0] == "s" { Id::Me } else { Id::N(p[0].parse::<usize>().ok().filter(|n| *n < N_TOKEN_LISTENERS)?) };
-        if !p[0].chars().all(|c| c.is_ascii_digit() || c == 's') || !p[1].chars().all(|c| c.is_ascii_digit()) {
+        let id = if p[0] == "s" {
+            Id::Me
+        } else {
+            if !digits(p[0]) {
+                return None;
+            }
+            Id::N(p[0].parse::<usize>().ok().filter(|n| *n < N_TOKEN_LISTENERS)?)
+        };
+        if !digits(p[1]) {
             return None;
         }
         let cluster: u16 = p[1].parse().ok()?;
-        let ring = if p[2] == "-" { None } else { Some(p[2].parse::<u8>().ok().filter(|r| *r <= 5 && p[2].chars().all(|c| c.is_ascii_digit()))?) };
-        if out.iter().any(|o| o.id == id) {
+        let ring = if p[2] == "-" { None } else { Some(p[2].parse::<u8>().ok().filter(|r| *r <= 5 && digits(p[2]))?) };
+        let ts = match p.get(3) {
+            None => 1,
+            Some(t) => t.parse::<u8>().ok().filter(|n| (1..=9).contains(n) && digits(t))?,
+        };
+        let addr = match p.get(4) {
+            None => listener_of(id),
+            Some(a) => {
+                if id == Id::Me || !digits(a) {
+                    return None;
+                }
+                a.parse::<usize>().ok().filter(|n| *n < N_TOKEN_LISTENERS)?
+            }
+        };
+        // an address belongs to one actor only
+        if out.iter().any(|o| o.id != id && o.addr == addr) {
             return None;
         }
-        out.push(Tok { id, cluster, ring });
+        out.push(Tok { id, cluster, ring, ts, addr });
     }
     Some(out)
+}
+
+/// The identity each actor ends up with, stated independently of the code: the first announcement of an
+/// actor counts, a strictly newer ts replaces it, older or equal ones are ignored.
+fn final_table(anns: &[Tok]) -> Vec<Tok> {
+    let mut out: Vec<Tok> = vec![];
+    for a in anns {
+        match out.iter_mut().find(|o| o.id == a.id) {
+            None => out.push(a.clone()),
+            Some(o) => {
+                if a.ts > o.ts {
+                    *o = a.clone();
+                }
+            }
+        }
+    }
+    out
 }
 
 fn listener_of(id: Id) -> usize {
@@ -787,36 +836,56 @@ fn listener_of(id: Id) -> usize {
     }
 }
 
+fn actor_of(lab: &Lab, id: Id) -> ActorId {
+    lab.listeners[listener_of(id)].actor
+}
+
+fn ts_of(k: u8) -> Timestamp {
+    Timestamp::from(uhlc::NTP64::from(Duration::from_secs(1_700_000_000 + 60 * k as u64)))
+}
+
 fn show_ids(set: &BTreeSet<usize>) -> String {
     // numeric ids ascending, the node itself (`s`) last — as the driver prints
     let v: Vec<String> = set.iter().filter(|l| **l != SENTINEL_L).map(|l| if *l == SELF_L { "s".to_string() } else { l.to_string() }).collect();
     show_list(&v, ",")
 }
 
-/// Fills the real `Members` of the lab agent (one critical section) and returns the listeners that the real
-/// `Members::ring0(agent.cluster_id())` yields.
-fn fill_table(lab: &Lab, mine: u16, toks: &[Tok], sentinel: bool) -> Result<BTreeSet<usize>, String> {
+/// Applies the announcements in list order to the real `Members` of the lab agent with the real
+/// `add_member` (one critical section), gives every FINAL identity its ring with one `add_rtt` sample, and
+/// returns the listeners that the real `Members::ring0(agent.cluster_id())` yields, plus oracle failures
+/// about the table itself (a stored cluster id that is not the one of the actor's newest identity).
+fn fill_table(lab: &Lab, mine: u16, anns: &[Tok], sentinel: bool) -> Result<(BTreeSet<usize>, Vec<String>), String> {
     let agent = &lab.node.agent;
     agent.set_cluster_id(ClusterId(mine));
-    let ts = Timestamp::from(agent.clock().new_timestamp());
+    let finals = final_table(anns);
+    let mut fails = vec![];
     let mut m = agent.members().write();
     m.states.clear();
     m.by_addr.clear();
     m.rtts.clear();
-    for t in toks {
-        let l = &lab.listeners[listener_of(t.id)];
-        m.add_member(&Actor::new(l.actor, l.addr, ts, ClusterId(t.cluster)));
+    for t in anns {
+        m.add_member(&Actor::new(actor_of(lab, t.id), lab.listeners[t.addr].addr, ts_of(t.ts), ClusterId(t.cluster)));
+    }
+    for t in &finals {
+        let (actor, addr) = (actor_of(lab, t.id), lab.listeners[t.addr].addr);
         if let Some(r) = t.ring {
-            m.add_rtt(l.addr, Duration::from_millis(RING_MS[r as usize]));
+            m.add_rtt(addr, Duration::from_millis(RING_MS[r as usize]));
         }
-        let got = m.states.get(&l.actor).map(|s| (s.ring, s.cluster_id.0, s.addr));
-        if got != Some((t.ring, t.cluster, l.addr)) {
-            return Err(format!("member {:?} is stored as {got:?}, wanted ring {:?} cluster {}", t.id, t.ring, t.cluster));
+        let got = m.states.get(&actor).map(|s| (s.ring, s.addr));
+        if got != Some((t.ring, addr)) {
+            return Err(format!("member {:?} is stored as {got:?}, wanted ring {:?} at listener {}", t.id, t.ring, t.addr));
+        }
+        let stored = m.states.get(&actor).map(|s| s.cluster_id.0);
+        if stored != Some(t.cluster) {
+            fails.push(format!(
+                "the membership table of the cluster-{mine} node holds cluster {stored:?} for member {:?} whose newest identity (ts {}) declares cluster {}",
+                t.id, t.ts, t.cluster
+            ));
         }
     }
     if sentinel {
         let l = &lab.listeners[SENTINEL_L];
-        m.add_member(&Actor::new(l.actor, l.addr, ts, ClusterId(mine)));
+        m.add_member(&Actor::new(l.actor, l.addr, ts_of(1), ClusterId(mine)));
     }
     let r0: Vec<SocketAddr> = m.ring0(agent.cluster_id()).collect();
     let mut out = BTreeSet::new();
@@ -828,7 +897,7 @@ fn fill_table(lab: &Lab, mine: u16, toks: &[Tok], sentinel: bool) -> Result<BTre
             None => return Err(format!("ring0 yielded an unknown address {a}")),
         }
     }
-    Ok(out)
+    Ok((out, fails))
 }
 
 fn clear_table(lab: &Lab) {
@@ -839,19 +908,24 @@ fn clear_table(lab: &Lab) {
 }
 
 /// listeners a same-cluster table entry other than the node itself lives on (independent restatement)
-fn expected_peers(mine: u16, toks: &[Tok]) -> BTreeSet<usize> {
-    toks.iter().filter(|t| t.cluster == mine && t.id != Id::Me).map(|t| listener_of(t.id)).collect()
+fn expected_peers(mine: u16, finals: &[Tok]) -> BTreeSet<usize> {
+    finals.iter().filter(|t| t.cluster == mine && t.id != Id::Me).map(|t| t.addr).collect()
 }
 
-async fn op_candidates(w: &mut World, mine: u16, toks: &[Tok]) -> Result<Out, OpErr> {
+fn has_updates(anns: &[Tok]) -> bool {
+    anns.iter().enumerate().any(|(i, a)| anns[..i].iter().any(|b| b.id == a.id))
+}
+
+async fn op_candidates(w: &mut World, mine: u16, anns: &[Tok]) -> Result<Out, OpErr> {
+    let finals = final_table(anns);
+    let toks: &[Tok] = &finals;
     let expect = expected_peers(mine, toks);
     if expect.len() > MAX_CANDIDATES {
         return Ok(Out { line: "err too-many-eligible".into(), ..Default::default() });
     }
     let lab = w.lab().await?;
-    fill_table(&lab, mine, toks, false).map_err(OpErr::Inconclusive)?;
+    let (_, mut fails) = fill_table(&lab, mine, anns, false).map_err(OpErr::Inconclusive)?;
     let mut chosen: BTreeSet<usize> = BTreeSet::new();
-    let mut fails = vec![];
     for _round in 0..5 {
         let mark = lab.contacts.lock().unwrap().len();
         // the real selection + the real client handshake; the listeners end the session at once, so the
@@ -871,7 +945,9 @@ async fn op_candidates(w: &mut World, mine: u16, toks: &[Tok]) -> Result<Out, Op
                     fresh_members += 1;
                 }
                 // what a completed sync does (`parallel_sync` → `update_sync_ts`): the next call prefers the others
-                lab.node.agent.members().write().update_sync_ts(&lab.listeners[c.listener].actor, ts);
+                if let Some(t) = toks.iter().find(|t| t.addr == c.listener) {
+                    lab.node.agent.members().write().update_sync_ts(&actor_of(&lab, t.id), ts);
+                }
             }
         }
         if fresh_members == 0 {
@@ -881,7 +957,7 @@ async fn op_candidates(w: &mut World, mine: u16, toks: &[Tok]) -> Result<Out, Op
     clear_table(&lab);
     let mut o = Out { line: format!("chosen {}", show_ids(&chosen)), fails, ..Default::default() };
     for l in &chosen {
-        match toks.iter().find(|t| listener_of(t.id) == *l) {
+        match toks.iter().find(|t| t.addr == *l) {
             Some(t) if t.id == Id::Me => o.fails.push("handle_sync chose the node itself as a sync partner".into()),
             Some(t) if t.cluster != mine => o.fails.push(format!("handle_sync of a cluster-{mine} node chose member {l} of cluster {} as a sync partner", t.cluster)),
             Some(_) => {}
@@ -896,12 +972,17 @@ async fn op_candidates(w: &mut World, mine: u16, toks: &[Tok]) -> Result<Out, Op
     let clusters: BTreeSet<u16> = toks.iter().map(|t| t.cluster).collect();
     o.nontrivial = clusters.iter().any(|c| *c != mine);
     o.tags.push(format!("candidates:clusters={}:chosen={}", clusters.len().min(4), chosen.len()));
+    if has_updates(anns) {
+        o.tags.push("candidates:with-identity-updates".into());
+    }
     Ok(o)
 }
 
 /// one broadcast through the lab agent's real broadcast loop → (ring0 listeners, listeners that received it)
-async fn targets_run(lab: &Lab, mine: u16, local: bool, toks: &[Tok], deadline: Duration) -> Result<(BTreeSet<usize>, BTreeSet<usize>), String> {
-    let ring0 = fill_table(lab, mine, toks, true)?;
+async fn targets_run(lab: &Lab, mine: u16, local: bool, anns: &[Tok], deadline: Duration) -> Result<(BTreeSet<usize>, BTreeSet<usize>, Vec<String>), String> {
+    let (ring0, mut fails) = fill_table(lab, mine, anns, true)?;
+    let finals = final_table(anns);
+    let toks: &[Tok] = &finals;
     let key = fresh_actor();
     let bcast = BroadcastV1::Change(ChangeV1 {
         actor_id: key,
@@ -936,9 +1017,18 @@ async fn targets_run(lab: &Lab, mine: u16, local: bool, toks: &[Tok], deadline: 
         (s, cl)
     };
     let t0 = Instant::now();
+    let mut sentinel_at: Option<Instant> = None;
     loop {
         let (s, _) = got(lab);
         if expect.is_subset(&s) {
+            break;
+        }
+        if s.contains(&SENTINEL_L) && sentinel_at.is_none() {
+            sentinel_at = Some(Instant::now());
+        }
+        // the flush tick has demonstrably happened and every re-send round (≤ 5, 100 ms × count apart) is
+        // over: whoever is still missing was not a target — that is for the oracle to judge, not a timeout
+        if sentinel_at.map(|t| t.elapsed() > Duration::from_secs(4)).unwrap_or(false) {
             break;
         }
         if t0.elapsed() > deadline {
@@ -963,30 +1053,24 @@ async fn targets_run(lab: &Lab, mine: u16, local: bool, toks: &[Tok], deadline: 
     clear_table(lab);
     let (sent, clusters) = got(lab);
     if let Some(c) = clusters.iter().find(|c| **c != mine) {
-        return Err(format!("ORACLE:a broadcast payload sent by a cluster-{mine} node declared cluster {c}"));
+        fails.push(format!("a broadcast payload sent by a cluster-{mine} node declared cluster {c}"));
     }
-    Ok((ring0, sent))
+    Ok((ring0, sent, fails))
 }
 
-async fn op_targets(w: &mut World, mine: u16, local: bool, toks: &[Tok]) -> Result<Out, OpErr> {
+async fn op_targets(w: &mut World, mine: u16, local: bool, anns: &[Tok]) -> Result<Out, OpErr> {
+    let finals = final_table(anns);
+    let toks: &[Tok] = &finals;
     let expect = expected_peers(mine, toks);
     if expect.len() > MAX_TARGETS {
         return Ok(Out { line: "err too-many-eligible".into(), ..Default::default() });
     }
     let lab = w.lab().await?;
     let mut o = Out::default();
-    let (ring0, sent) = match targets_run(&lab, mine, local, toks, WAIT).await {
-        Ok(x) => x,
-        Err(e) => match e.strip_prefix("ORACLE:") {
-            Some(f) => {
-                o.fails.push(f.to_string());
-                (BTreeSet::new(), BTreeSet::new())
-            }
-            None => return Err(OpErr::Inconclusive(e)),
-        },
-    };
+    let (ring0, sent, fails) = targets_run(&lab, mine, local, anns, WAIT).await.map_err(OpErr::Inconclusive)?;
+    o.fails.extend(fails);
     o.line = format!("ring0={} sent={}", show_ids(&ring0), show_ids(&sent));
-    let tok_of = |l: usize| toks.iter().find(|t| listener_of(t.id) == l);
+    let tok_of = |l: usize| toks.iter().find(|t| t.addr == l);
     for l in &ring0 {
         match tok_of(*l) {
             Some(t) if t.cluster != mine => o.fails.push(format!("ring0 of a cluster-{mine} node contains member {l} of cluster {}", t.cluster)),
@@ -996,7 +1080,7 @@ async fn op_targets(w: &mut World, mine: u16, local: bool, toks: &[Tok]) -> Resu
         }
     }
     for t in toks.iter().filter(|t| t.cluster == mine && t.ring == Some(0)) {
-        if !ring0.contains(&listener_of(t.id)) {
+        if !ring0.contains(&t.addr) {
             o.fails.push(format!("same-cluster ring-0 member {:?} is missing from ring0", t.id));
         }
     }
@@ -1015,6 +1099,9 @@ async fn op_targets(w: &mut World, mine: u16, local: bool, toks: &[Tok]) -> Resu
     }
     let clusters: BTreeSet<u16> = toks.iter().map(|t| t.cluster).collect();
     o.nontrivial = clusters.iter().any(|c| *c != mine);
+    if has_updates(anns) {
+        o.tags.push("targets:with-identity-updates".into());
+    }
     o.tags.push(format!("targets:{}:clusters={}:sent={}", if local { "local" } else { "relay" }, clusters.len().min(4), sent.len().saturating_sub(1).min(9)));
     Ok(o)
 }
@@ -1083,9 +1170,11 @@ fn gen_members(rng: &mut Rng, mine: u16, max_same: usize) -> String {
     let n = rng.range(0, 10) as usize;
     let mut ids: Vec<usize> = (0..N_TOKEN_LISTENERS).collect();
     rng.shuffle(&mut ids);
+    let spare: Vec<usize> = ids[n.min(ids.len())..].to_vec();
     let pool = [mine, mine, if mine == 0 { 1 } else { 0 }, mine ^ 1, mine.wrapping_add(256), 7];
     let mut same = 0;
-    let mut out = vec![];
+    // (id, cluster, ring) of the FINAL identities
+    let mut base: Vec<(usize, u16, String)> = vec![];
     for id in ids.into_iter().take(n) {
         let mut c = *rng.pick(&pool);
         if c == mine {
@@ -1100,7 +1189,36 @@ fn gen_members(rng: &mut Rng, mine: u16, max_same: usize) -> String {
             2 => "-".to_string(),
             _ => rng.range(1, 5).to_string(),
         };
-        out.push(format!("{id}:{c}:{ring}"));
+        base.push((id, c, ring));
+    }
+    let mut out: Vec<String> = vec![];
+    let mut spare = spare.into_iter();
+    let updates = rng.chance(2, 5);
+    for (id, c, ring) in base {
+        if updates && rng.chance(1, 2) {
+            // the member was announced before with another cluster id (it joined or left `mine`): the final
+            // identity is the newer one, whichever of the two arrives first; sometimes it also moved
+            let ts_new = rng.range(2, 9);
+            let ts_old = rng.range(1, ts_new - 1);
+            let c_old = if c == mine { *rng.pick(&[mine.wrapping_add(1), mine ^ 1, 7u16.wrapping_add(mine)]) } else { mine };
+            let c_old = if c_old == c { c.wrapping_add(2) } else { c_old };
+            let ring_old = if rng.chance(1, 2) { "0" } else { "-" };
+            let moved = if rng.chance(1, 3) { spare.next() } else { None };
+            let newer = format!("{id}:{c}:{ring}:{ts_new}");
+            let older = match moved {
+                Some(a) => format!("{id}:{c_old}:{ring_old}:{ts_old}:{a}"),
+                None => format!("{id}:{c_old}:{ring_old}:{ts_old}"),
+            };
+            if rng.chance(2, 3) {
+                out.push(older);
+                out.push(newer);
+            } else {
+                out.push(newer);
+                out.push(older);
+            }
+        } else {
+            out.push(format!("{id}:{c}:{ring}"));
+        }
     }
     if rng.chance(1, 4) {
         let c = if rng.chance(3, 4) { mine } else { mine.wrapping_add(1) };
@@ -1136,6 +1254,13 @@ const PINNED: &[&str] = &[
     "targets 1 relay 0:1:0,1:0:0,2:1:-,3:7:2,s:1:0,4:1:3,5:0:-",
     "targets 0 local 0:1:0,1:2:0,2:258:0",
     "targets 2 relay 0:2:-,1:2:0,2:2:3,3:2:1,4:2:0,5:0:0,6:3:0,7:258:-",
+    // identity updates through the real `add_member`: the table must follow the NEWEST identity of each actor
+    "candidates 1 0:1:0:1,0:2:0:2,1:1:-",            // left the cluster, same address
+    "candidates 1 0:2:0:1,0:1:0:2,1:1:-",            // joined the cluster, same address
+    "candidates 1 2:0:-:1,2:1:-:3:7,3:1:0:5,3:0:0:2", // joined and moved; newer first, older ignored
+    "targets 1 local 0:1:0:1,0:7:0:2,1:1:0",          // ring-0 member left the cluster, same address
+    "targets 1 local 3:1:0:1,3:2:0:2:9,4:1:-",        // left the cluster and moved
+    "targets 1 relay 5:2:0:5,5:1:0:2,6:1:3,7:2:-:1,7:1:-:4", // reverse order ignored; joined, same address
 ];
 
 impl Prop for C16 {
